@@ -313,6 +313,9 @@ func genMut(t *rapid.T, e *extInfo, depth int) Mut {
 	case "subdel":
 		m.A = ubits(t, "a", 12)
 		m.B = ubits(t, "b", 6)
+	case "jsonnode":
+		m.A = ubits(t, "a", 10)
+		m.B = upick(t, "b", len(jsonReplacements))
 	case "elfsec":
 		m.A = ubits(t, "a", 6)
 		m.B = upick(t, "b", 4)
